@@ -36,7 +36,7 @@ SUPPORTED_IN = ("get_descriptor", "get_status", "get_config")
 # ------------------------------------------------------------------------------------------ descriptors
 
 def make_descriptors(rng):
-    """Random raw descriptor set {(type, index): bytes}.  Lengths are never a multiple of 64 (the
+    """Random raw descriptor set {(type, index): bytes}.  Lengths are never a multiple of 8, i.e. of any EP0 packet size (the
     zero-length-packet terminator rule is property C09's subject)."""
     def blob(t, n):
         return bytes([n & 0xFF, t] + [rng.randrange(256) for _ in range(n - 2)])
@@ -44,7 +44,7 @@ def make_descriptors(rng):
     def length(lo, hi):
         while True:
             n = rng.randint(lo, hi)
-            if n % 64:
+            if n % 8:
                 return n
     def config(n, value):
         raw = bytearray(blob(2, n))
@@ -57,8 +57,10 @@ def make_descriptors(rng):
     d[(3, 0)] = blob(3, 4)
     for i in range(1, rng.randint(2, 4)):
         d[(3, i)] = blob(3, 2 * rng.randint(2, 50) if rng.random() < 0.8 else 66 + 2 * rng.randint(0, 20))
+        if len(d[(3, i)]) % 8 == 0:
+            d[(3, i)] = blob(3, len(d[(3, i)]) + 2)
     for k in list(d):
-        if len(d[k]) % 64 == 0:
+        if len(d[k]) % 8 == 0:
             d[k] = d[k] + b"\x00\x00"
     return d
 
@@ -140,6 +142,7 @@ class Xfer:
         self.unacked = False       # device data packet on ep0 sent and not ACKed by the host
         self.done = False          # status stage handshake completed
         self.stalled = False
+        self.foreign_setup = False         # a SETUP for another endpoint of this device came during this transfer
         self.foreign_ack_unacked = False   # another transaction's ACK was on the wire while `unacked`
         self.foreign_ack_nodata = False    # ... while the status stage of a no-data request was pending
         self.status_zlp_sent = None        # cycle the device sent its status ZLP (no-data requests)
@@ -157,7 +160,10 @@ class Xfer:
 class RefControl:
     """The oracle: stage tracker + judge.  `viol(symptom, detail)` is called for every contradiction."""
 
-    def __init__(self, descs, viol, res):
+    def __init__(self, descs, viol, res, mps=EP0_MPS, get_config_override=None):
+        self.mps = mps                             # wMaxPacketSize of endpoint 0
+        self.get_config_override = get_config_override   # byte returned by the check's own handler when the standard one skips GET_CONFIGURATION
+        self.foreign_setup_seen = False
         self.descs = descs
         self.viol = viol
         self.res = res
@@ -193,7 +199,7 @@ class RefControl:
         if self.cur is not None and not self.cur.done:
             self.abandoned = True
             self.res.bin("setup_after_unfinished_%s" % self.cur.stage)
-        self.cur = x = Xfer(s8, self.descs, self.cfg, cycle)
+        self.cur = x = Xfer(s8, self.descs, self.cfg if self.get_config_override is None else self.get_config_override, cycle)
         self.res.event("setups_judged")
         self._mark("setup", cycle=cycle, xfer=x)
         if not (resp["kind"] == "handshake" and resp["pid"] == U.ACK):
@@ -239,7 +245,7 @@ class RefControl:
             if resp["kind"] != "data":
                 self.viol("data_stage_wrong_packet", "%s offset %d: answered %s" % (x.name(), x.offset, brief(resp)))
                 return False
-            n_exp = min(EP0_MPS, total - x.offset)
+            n_exp = min(self.mps, total - x.offset)
             self.res.event("data_packets_judged")
             if resp["pid"] != (U.DATA1 if x.toggle else U.DATA0):
                 self.viol("data_stage_wrong_toggle", "%s offset %d: PID %s expected DATA%d" % (
@@ -359,6 +365,15 @@ class RefControl:
         if x is not None and not x.done:
             x.legal = False
 
+    def on_setup_other_endpoint(self):
+        """SETUP token (+ DATA0) to this device's address but another endpoint number: nothing of endpoint 0 may change."""
+        x = self.cur
+        if x is not None and not x.done:
+            x.foreign_setup = True
+            self.res.bin("setup_other_endpoint_mid_transfer")
+        else:
+            self.res.bin("setup_other_endpoint_between_transfers")
+
     def on_foreign_ack(self, cycle):
         """An ACK handshake that does not belong to a data packet this device sent on ep0."""
         x = self.cur
@@ -391,10 +406,11 @@ class Session:
     BULK_IN_EP = 1
     BULK_OUT_EP = 2
 
-    def __init__(self, b, host, rng, res, descs, utmi, *, foreign_ack_in_windows=True, report=True, resp_window=RESP_WINDOW):
+    def __init__(self, b, host, rng, res, descs, utmi, *, foreign_ack_in_windows=True, report=True, resp_window=RESP_WINDOW,
+                 mps=EP0_MPS, get_config_override=None):
         self.b, self.host, self.rng, self.res, self.descs, self.utmi = b, host, rng, res, descs, utmi
         self.episode_failed = False
-        self.ref = RefControl(descs, self._viol, res)
+        self.ref = RefControl(descs, self._viol, res, mps=mps, get_config_override=get_config_override)
         self.out_toggle = 0
         self.steps = []
         self.foreign_ack_in_windows = foreign_ack_in_windows
@@ -416,7 +432,9 @@ class Session:
             self.muted.append((symptom, detail))
             self.res.event("protocol_contradictions_left_to_c07")
             return
-        if self.ref.in_past_end:
+        if x is not None and x.foreign_setup:
+            mech = "setup_for_other_endpoint_disturbs_ep0"
+        elif self.ref.in_past_end:
             mech = "in_past_end_wedges_descriptor_handler"
         elif self.ref.abandoned or self.ref.suspect:
             mech = "stale_request_state_after_abandoned_transfer"
@@ -458,7 +476,7 @@ class Session:
         yield from self.host.gap()
         return True
 
-    def w_in(self, addr, ep, hs="ack"):
+    def w_in(self, addr, ep, hs="ack", gap=True):
         """IN transaction; hs: 'ack' | 'none'.  Returns (ok, response)."""
         ours = addr == self.ref.addr and ep == 0
         self.step("IN", addr, ep, hs)
@@ -475,7 +493,8 @@ class Session:
             ok = self.ref.on_in(r, acked, self.b.cycle, span)
         elif acked:
             self.ref.on_foreign_ack(self.b.cycle)
-        yield from self.host.gap()
+        if gap:
+            yield from self.host.gap()
         return ok, r
 
     def w_out(self, addr, ep, pid, payload, *, token_only=False):
@@ -504,11 +523,11 @@ class Session:
         yield from self._response()
         yield from self.host.gap()
 
-    def bus_reset(self, n=None):
+    def bus_reset(self, n=None, pre=3):
         """SE0 on the line for n cycles (>= 5 us = 300 cycles at the 60 MHz UTMI clock is a reset)."""
         n = n or self.rng.randint(310, 360)
         self.step("BUS_RESET", n)
-        yield from self.host.idle(3)
+        yield from self.host.idle(pre)
         self.b.set(self.utmi.line_state, 0b00)
         t0 = self.b.cycle
         yield from self.host.idle(n)
@@ -553,7 +572,7 @@ class Session:
         """One transaction that does not belong to endpoint 0 of this device."""
         rng = self.rng
         kinds = ["bulk_in_ack", "bulk_in_ack", "bulk_in_noack", "bulk_out", "bulk_out", "noep_in", "noep_out",
-                 "other_dev_in", "other_dev_out", "other_dev_setup", "sof", "other_ep_ping"]
+                 "other_dev_in", "other_dev_out", "other_dev_setup", "sof", "other_ep_ping", "own_setup_other_ep"]
         if kind is None:
             if self.extra_foreign and rng.random() < 0.35:
                 yield from rng.choice(self.extra_foreign)()
@@ -622,6 +641,16 @@ class Session:
             yield from self.host.handshake(U.ACK)
             self.ref.on_foreign_ack(self.b.cycle)
             yield from self.host.gap()
+        elif kind == "own_setup_other_ep":
+            # SETUP transaction to this device's address, endpoint != 0 (its answer is not judged); it looks like a
+            # request endpoint 0 would serve
+            e = rng.choice([self.BULK_IN_EP, self.BULK_OUT_EP, 5, 8])
+            s8 = rng.choice([GET_DESCRIPTOR(1, 0, 18), GET_DESCRIPTOR(2, 0, 64), SET_ADDRESS(rng.randrange(1, 128)),
+                             SET_CONFIGURATION(1), VENDOR(True, rng.randrange(256), 4)])
+            self.ref.on_setup_other_endpoint()
+            yield from self.w_setup(a, s8, ep=e)
+            if self.ref.cur is None or self.ref.cur.done:
+                yield from self.w_in(a, 0, "none")      # no transfer on ep0: this IN must not carry data (rule i)
         elif kind == "other_ep_ping":
             yield from self.w_ping(a, rng.choice([self.BULK_OUT_EP, self.BULK_OUT_EP, 5]))     # answer not judged
         elif kind == "sof":
@@ -660,7 +689,7 @@ class Session:
         last_ack_lost = rng.random() < 0.08
         while x.offset < total:
             noack = rng.random() < p_noack
-            final = total - x.offset <= EP0_MPS
+            final = total - x.offset <= self.ref.mps
             if final and last_ack_lost:
                 noack = True
             ok, r = yield from self.w_in(a, 0, "none" if noack else "ack")
@@ -809,10 +838,6 @@ class Session:
             key = rng.choice(sorted(self.descs))
             d = self.descs[key]
             n = rng.choice([len(d), len(d), 255, 8, 9, 18, 64, len(d) + 1, max(1, len(d) - 1), rng.randint(1, 300), 0xFFFF, 512])
-            if min(n, len(d)) % 64 == 0 and n > len(d):
-                n = len(d)
-            if n >= len(d) and len(d) % 64 == 0:
-                n = len(d) - 1
             return GET_DESCRIPTOR(key[0], key[1], n, rng.choice([0, 0x0409])), "in", "xfer_get_descriptor"
         if r < 0.52:
             # device status, or status of endpoint 0 (valid in every device state, USB 2.0 9.4.5)
@@ -832,7 +857,7 @@ class Session:
         self.res.event("transfers_judged")
         if shape == "in":
             x_total = len(self.descs.get((s8[3], s8[2]), b"")) if s8[1] == 6 else 0
-            early = x_total > 64 and self.rng.random() < 0.15
+            early = x_total > self.ref.mps and self.rng.random() < 0.15
             ok = yield from self.transfer_in(s8, early=early, **kw)
         elif shape == "out":
             ok = yield from self.transfer_out(s8, **kw)
